@@ -835,7 +835,21 @@ impl<'comments> Formatter<'comments> {
                 documents.push(lines(1));
             }
 
-            documents.push(self.expr(expression, false).group());
+            // A trace takes everything that follows it as its continuation, so one that is
+            // not the last expression of the sequence keeps the braces it was written with.
+            if i + 1 != count
+                && matches!(
+                    expression,
+                    UntypedExpr::Trace {
+                        kind: TraceKind::Trace,
+                        ..
+                    }
+                )
+            {
+                documents.push(self.wrap_block(expression));
+            } else {
+                documents.push(self.expr(expression, false).group());
+            }
         }
 
         documents.to_doc().force_break()
